@@ -233,7 +233,7 @@ def readFromStream(substrate, size=-1, context=None):
         try:
             received = substrate.read(size)
 
-        except OverflowError:
+        except (OverflowError, MemoryError):
             # no stream can hold that many octets
             raise error.SubstrateUnderrunError(
                 'Requested %s octets, more than can possibly be available' % size,
